@@ -10,11 +10,12 @@
 EXTENDS IntMath, BigNat
 
 (* bounds of a type as BigNat integers (any width up to 64) *)
-MinZTab == Tabulated([t \in Types |-> IF t \in SignedTypes THEN NegZ(ZOfN(Pow2N[BitsTable[t] - 1])) ELSE Zero])
-MaxZTab == Tabulated([t \in Types |-> SubZ(ZOfN(Pow2N[IF t \in SignedTypes THEN BitsTable[t] - 1 ELSE BitsTable[t]]), One)])
-MinZ(T) == MinZTab[T]
-MaxZ(T) == MaxZTab[T]
-RepZ(T, z) == LeZ(MinZ(T), z) /\ LeZ(z, MaxZ(T))
+MinZ(T) == IF T \in SignedTypes THEN [s |-> -1, m |-> Pow2N[Bits(T) - 1]] ELSE Zero
+MaxZ(T) == SubZ(ZOfN(Pow2N[IF T \in SignedTypes THEN Bits(T) - 1 ELSE Bits(T)]), One)
+(* Min <= z <= Max without computing Max:  z < 2^k *)
+RepZ(T, z) == IF T \in SignedTypes
+              THEN IF z.s < 0 THEN LeN(z.m, Pow2N[Bits(T) - 1]) ELSE LtN(z.m, Pow2N[Bits(T) - 1])
+              ELSE z.s >= 0 /\ LtN(z.m, Pow2N[Bits(T)])
 
 WTruncationCheck(D, v) == IF RepZ(D, v) THEN Some(v) ELSE None
 WFromInt(size, v) == IF LtZ(v, ZOfInt(size)) THEN Some(v) ELSE None
